@@ -61,7 +61,7 @@ def _run(args):
         return out
     orig = read_all()
     tr.check1 = go(True)
-    tr.rep_check1 = cli.Report(tr.check1.stdout)
+    tr.rep_check1 = cli.Report(tr.check1.stdout, names=list(names), src=os.path.join(proj, "src"), err=tr.check1.stderr)
     tr.edit1 = go(False) if not tr.crashed else None
     after1 = read_all()
     tr.lock1 = cli.read_lock(os.path.join(proj, "Breadlog.lock"))
@@ -71,7 +71,7 @@ def _run(args):
     tr.lock2 = tr.lock1
     if steps >= 4 and not tr.crashed:
         tr.check2 = go(True)
-        tr.rep_check2 = cli.Report(tr.check2.stdout)
+        tr.rep_check2 = cli.Report(tr.check2.stdout, names=list(names), src=os.path.join(proj, "src"), err=tr.check2.stderr)
         tr.edit2 = go(False) if not tr.crashed else None
         tr.rep_edit2 = cli.Report(tr.edit2.stdout) if tr.edit2 else None
         after2 = read_all()
@@ -83,7 +83,8 @@ def _run(args):
         unus.setdefault(os.path.relpath(fn, os.path.join(proj, "src")) if os.path.isabs(fn) else fn, []).append((l, c))
 
     def key(fn):
-        return os.path.normpath(os.path.relpath(os.path.normpath(fn), os.path.join(proj, "src")))
+        # (the report resolves every name it can to one of `names`; what is left is a name as printed)
+        return os.path.normpath(os.path.relpath(os.path.normpath(fn), os.path.join(proj, "src")) if os.path.isabs(fn) else fn)
     pos = {}
     for fn, l, c in tr.rep_check1.missing:
         pos.setdefault(key(fn), []).append((l, c))
